@@ -7,6 +7,18 @@ props = [json.loads(l)["id"] for l in open(os.path.join(HERE, "properties.jsonl"
 
 # id -> (technique, level text, level note, design section)
 claimed = {
+ "C03": ("Lean 4 theorems over a port of node/edit.go (editor model on schema-shaped data trees, mutual structural recursion) against a keyed-deep-merge specification; correspondence on generated (schema, source, target, strategy, entry point) over 4 source and 3 target node implementations with an independent reference store",
+         "Theorems (every schema, every pair of conforming trees of any depth): upsert = keyed deep merge (leaves overwrite, containers merge, entries matched by key else appended, created nodes get defaults); insert = the merge iff nothing exists at the level being inserted else conflict; update = the merge iff everything addressed exists else not-found; frame for unmentioned children and unmentioned list keys; the result conforms again. Tie: ~2 400 (quick) / 180 000 (thorough) generated edits; status and the complete target tree, re-read independently of the library, are compared with the model and the specification.",
+         "Trusted: Lean kernel, harness, reference store (implements the store contract the model assumes). Model is hand-written. Not modelled: choice/case (C09), partial effects of a failed insert/update (the editor is not atomic; only the error class is compared). Known finding: map-backed lists with compound keys.",
+         "DESIGN.md §8 C03"),
+ "C08": ("Lean 4 theorems over the path text codec (QueryEscape/QueryUnescape on bytes, segment and path splitting) and keyed lookup; correspondence of Path.String with the model renderer and Find on every node of generated trees with a hostile key alphabet",
+         "Theorems (every byte string as key, every path length, compound keys): unescape∘escape = id; escaped text contains no separator; parsePath(renderPath segs) = segs, also with a trailing slash; lookup by key finds exactly present keys. Tie: for every container and entry of generated trees — Find plain / trailing slash / module-qualified / with query / through ../ from another selection; content of the selection; its rendered path re-found; absent key/container → no selection; unknown name → not-found; store unchanged; Path.String compared with the model renderer.",
+         "Trusted: Lean kernel, harness; net/url escaping is modelled (not imported) and tied by the generated keys. find_locates over the schema walk (findSlice) is carried by the correspondence, not by a theorem.",
+         "DESIGN.md §8 C08"),
+ "C18": ("Lean 4 theorems over delete / replace / merge on the shared data model, invariant lifted to all histories by induction over the operation list; correspondence on operation sequences with store re-read and Find after every step",
+         "Theorems: delete of an entry removes exactly it (lookup gives none, every other key keeps its entry, siblings untouched); delete of a container/list empties exactly that child; replace = exactly the supplied content with defaults, independent of the old content; upsert of an existing key merges and never appends; every operation preserves 'conforming ∧ no list holds two entries with equal keys at any depth', hence every history does; an entry is found under its own key. Tie: sequences of 1–12 operations at root/container/entry locations on the reference store and on reflection over maps, compared with the model after each step.",
+         "Trusted: Lean kernel, harness, reference store. Histories end at their first failing request (partial effects of a failed edit are unspecified). Slice/struct-backed reflection targets are not yet in the sequence stream.",
+         "DESIGN.md §8 C18"),
  "C05": ("Lean 4 theorems over the range/length/pattern/membership check model (hand-written port of meta.Range*/fieldConstraints/NewValue front end); correspondence on generated modules through three write paths with store before/after comparison",
          "Theorems (every restriction, every typedef chain, every value): a value accepted by the check lies in an alternative of the restriction of every level (min/max = base-type bounds); conversely well-formed restrictions accept every member; each leaf-list element is checked on its own; a rejected write leaves the store unchanged and an accepted one stores the checked value; enum/bits/identityref/union acceptance implies declared membership. Tie: generated modules (all numeric bases, decimal64, string length, chains of depth 0-3, min/max, alternatives) × boundary candidate values × SetValue / UpsertFrom(JSON) / UpsertFrom(node), outcome and store compared with model and oracle.",
          "Trusted: Lean kernel, harness, regexp (uninterpreted predicate), float64 order on ≤2-fraction-digit decimals. Model is hand-written (no translator); patterns OR-ed is a recorded known finding (pinned by the repo's own test); union member restrictions are not enforced by the library and are outside the generated cases.",
